@@ -736,6 +736,7 @@ def run(ctx):
     ctx.attempt(lagrange_condition_rule, ctx)
     ctx.attempt(orphan_detection_rule, ctx)
     ctx.attempt(saddle_point_dispatch_rule, ctx)
+    ctx.attempt(hinge_rule, ctx)
     prescription_order_rule(ctx)
     from . import c03
 
@@ -917,3 +918,28 @@ def saddle_point_dispatch_rule(ctx):
                 r.fail(f.qualname, f"saddle:{label}", f.file, f.lineno, "_Solve_Axb", f"solver = {nm}, Lagrange conditions present: the bordered (indefinite) system is handed to {what}: an iterative backend stagnates on it and its convergence flag is not read -- the returned vector is not the solution the direct path gives")
             else:
                 r.ok(f"{label}: Lagrange conditions -> {what}")
+
+
+def hinge_rule(ctx):
+    """R4.13: 'multi-point (connection) constraints are satisfied exactly' -- and only those that were asked for: a hinged
+    connection ties the translations and blocks the rotations that are NOT listed as free.  Beam.add_connection_hinged is
+    interpreted for the beam dimensions 2 and 3 and several lists of free rotations, with a recording add_connection."""
+    repo = ctx.repo
+    ci = repo.cls("EasyFEA.Simulations._beam.Beam")
+    f = ci.methods["add_connection_hinged"]
+    r = ctx.rule("R4.13", "add_connection_hinged ties the translations and exactly the rotations that are not listed as free (3-D: [''] -> ball joint, ['rz'] -> rx, ry tied)", min_instances=4)
+    cases = [(2, [""], ["x", "y"]), (3, [""], ["x", "y", "z"]), (3, ["rz"], ["x", "y", "z", "rx", "ry"]), (3, ["rx", "ry"], ["x", "y", "z", "rz"]), (3, ["rx", "ry", "rz"], ["x", "y", "z"])]
+    for dim, free, want in cases:
+        r.instance(fn=f.qualname)
+        got = []
+        obj = XObj(ci, {"structure": SimpleNamespace(dim=dim), "add_connection": lambda nodes, unknowns, description="", got=got: got.append(list(unknowns))})
+        try:
+            Interp(repo).call_function(f, [Opaque("nodes"), list(free)], self_obj=obj)
+        except XRaise as e:
+            r.fail(f.qualname, f"hinge:dim{dim}:{'+'.join(free) or 'none'}", f.file, f.lineno, "Beam.add_connection_hinged", f"dim {dim}, free rotations {free}: raises {e}")
+            continue
+        tied = got[0] if got else None
+        if tied is not None and sorted(tied) == sorted(want):
+            r.ok(f"dim {dim}, free {free}: ties {want}")
+        else:
+            r.fail(f.qualname, f"hinge:dim{dim}:{'+'.join(free) or 'none'}", f.file, f.lineno, "Beam.add_connection_hinged", f"dim {dim}, free rotations {free}: the connection ties {tied}, expected {want}: rotations that should stay free are constrained (the hinge behaves as a fixed joint) or the reverse")
